@@ -210,9 +210,75 @@ def undefined_estimate_block(ctx):
             ctx.count("undefined-estimate:%s:%s" % (tag, "raised" if raised else "completed"))
 
 
+def zero_estimate_block(ctx):
+    """a stretch on which the error estimate is EXACTLY zero (the right-hand side vanishes identically for t <= 1), then a smooth but
+    oscillatory feature: what the controller remembers of the zero estimates must not make it accept the later steps unseen; also the
+    Richardson wrappers, with an overflowing first attempt (NaN estimate)"""
+    def F(t):
+        return float(np.exp(-1.0 / (t - 1.0)) * np.sin(50.0 * t)) if t > 1.0 else 0.0
+
+    def rhs(t, y):
+        if t <= 1.0:
+            return np.array([0.0])
+        s_ = t - 1.0
+        return np.array([np.exp(-1.0 / s_) * (np.sin(50.0 * t) / s_ ** 2 + 50.0 * np.cos(50.0 * t))])
+    tol = 1e-8
+    meths = [("RK45CKSolver", I.RK45CKSolver), ("DOPRI45", I.DOPRI45), ("RK8713MSolver", I.RK8713MSolver),
+             ("Richardson(RK4,4)", de.integrators.generate_richardson_integrator(I.RK4Solver, 4)),
+             ("Richardson(Midpoint,4)", de.integrators.generate_richardson_integrator(I.MidpointSolver, 4)),
+             ("Richardson(RK45CK,3)", de.integrators.generate_richardson_integrator(I.RK45CKSolver, 3))]
+    for (name, cls) in meths:
+        for dt0 in (0.05, 0.3):
+            inp = dict(kind="zero-estimate-stretch", method=name, dt0=dt0, tol=tol)
+            ode = de.OdeSystem(rhs, y0=np.array([0.0]), t=(0.0, 3.0), dt=dt0, rtol=tol, atol=tol)
+            ode.set_method(cls)
+            nb = [0]
+
+            def cb(o, nb=nb):
+                nb[0] += 1
+                if nb[0] > 200000:
+                    raise RuntimeError("step budget")
+            try:
+                ode.integrate(callback=[cb])
+                raised = None
+            except de.exception_types.FailedIntegration as e:
+                raised = type(e.__cause__).__name__ if e.__cause__ is not None else "FailedIntegration"
+            ts, ys = np.array(ode.t), np.array(ode.y)[:, 0]
+            err = max(abs(float(y) - F(float(t))) for t, y in zip(ts, ys)) if np.all(np.isfinite(ys)) else float("inf")
+            ctx.oracle("global-error-proportional-to-tolerance", err <= 5e3 * tol, dict(inp, raised=raised, steps=len(ts) - 1, error=err, first_steps=np.round(np.diff(ts)[:6], 4).tolist()),
+                       key="zero-estimate-stretch:%s:dt0=%g" % (name, dt0), what="after a stretch of exactly zero error estimates the run is off by %.2e (tolerance %.0e, %d steps: %s ...)" % (err, tol, len(ts) - 1, np.round(np.diff(ts)[:5], 3).tolist()))
+            ctx.count("zero-estimate:" + name)
+    # NaN estimate through the Richardson wrappers (their safety factor differs from the embedded pairs')
+    for (name, cls) in meths[3:]:
+        for sign in (1.0, -1.0):
+            inp = dict(kind="undefined-estimate", scenario="overflowing-first-attempt", method=name, direction=sign)
+            ode = de.OdeSystem(lambda t, y, sign=sign: -sign * y ** 3, y0=np.array([10.0]), t=(0.0, sign * 2000.0), dt=1000.0, rtol=1e-8, atol=1e-10)
+            ode.set_method(cls)
+            nb = [0]
+
+            def cb2(o, nb=nb):
+                nb[0] += 1
+                if nb[0] > 50000:
+                    raise RuntimeError("step budget")
+            try:
+                with np.errstate(all="ignore"):
+                    ode.integrate(callback=[cb2])
+                raised = None
+            except de.exception_types.FailedIntegration as e:
+                raised = type(e.__cause__).__name__ if e.__cause__ is not None else "FailedIntegration"
+            ys = np.array(ode.y)[:, 0]
+            ts = np.array(ode.t)
+            finite = bool(np.all(np.isfinite(ys)))
+            err = max(abs(float(y) - 10.0 / np.sqrt(1 + 200.0 * abs(float(t)))) for t, y in zip(ts, ys)) if finite else float("inf")
+            ctx.oracle("uncertifiable-step-is-not-recorded", finite and err <= 1e-3, dict(inp, raised=raised, steps=len(ts) - 1, error=err),
+                       key="undefined-estimate-accepted", what="%s: recorded states off by %.2e after %d steps, finite=%s, raised=%r" % (name, err, len(ts) - 1, finite, raised))
+            ctx.count("undefined-estimate:richardson")
+
+
 def run(ctx):
     rng = ctx.rng
     undefined_estimate_block(ctx)
+    zero_estimate_block(ctx)
     tolerance_setter_block(ctx, rng)
     lines, cases = [], []
     names = PAIRS_EXPLICIT[:4] + (PAIRS_IMPLICIT[:1] if ctx.quick() else PAIRS_EXPLICIT[4:] + PAIRS_IMPLICIT)
